@@ -167,7 +167,7 @@ func (w *TimerWork) Exec(x *Exec) {
 						target = tms[id]
 					}
 					if target != nil {
-						r.Bool = target.Stop()
+						r.Bool = simrt.TimerStop(target)
 					}
 				case "dcall":
 					dcall(body)
@@ -413,11 +413,16 @@ func (w *TimerWork) Post(out *RunOut) {
 		}
 		sort.Slice(grants, func(a, b int) bool { return grants[a].Ret < grants[b].Ret })
 		out.Count("c20_grants", len(grants))
-		// P4: after Cancel has returned, every Next returns false
+		// P4: after Cancel has returned, every Next returns false. A Next that was invoked before Cancel
+		// returned may have been handed its permission before Cancel took effect and merely return later
+		// (any implementation can be preempted between the two; one built on channels has a scheduling
+		// point there): that is a grant before Cancel. It is a grant after Cancel for certain when the
+		// Next was invoked after Cancel had returned, or - no time faults, so a task that can run is never
+		// held back while simulated time passes - when it returned at a later instant than Cancel did.
 		if firstCancel != nil {
 			for _, n := range nexts {
-				if n.Ret > firstCancel.Ret && n.Bool {
-					fail("grant-after-cancel", "Next (client%d#%d) returned true at seq %d, after Cancel had returned at seq %d", n.Task, n.Idx, n.Ret, firstCancel.Ret)
+				if n.Bool && (n.Inv > firstCancel.Ret || (!w.P.TimeFaults && n.Ret > firstCancel.Ret && n.TR > firstCancel.TR)) {
+					fail("grant-after-cancel", "Next (client%d#%d, invoked at seq %d) returned true at seq %d (%s), after Cancel had returned at seq %d (%s)", n.Task, n.Idx, n.Inv, n.Ret, time.Duration(n.TR), firstCancel.Ret, time.Duration(firstCancel.TR))
 					return
 				}
 				if !w.P.TimeFaults && n.Inv > firstCancel.Ret && n.TR != n.TI {
@@ -431,18 +436,33 @@ func (w *TimerWork) Post(out *RunOut) {
 			}
 		}
 		// P1: at most one permission per period
-		for i := 1; i < len(grants); i++ {
-			a, b := grants[i-1], grants[i]
-			exact++
-			if !w.P.TimeFaults {
+		if !w.P.TimeFaults {
+			for i := 1; i < len(grants); i++ {
+				a, b := grants[i-1], grants[i]
+				exact++
 				// no simulated time passes between the grant and the return of Next: return instant = grant instant
 				if b.TR-a.TR < w.WaitNs {
 					fail("two-grants-in-one-period", "Next returned true at %s (client%d#%d) and again at %s (client%d#%d): %s apart, less than the period %s", time.Duration(a.TR), a.Task, a.Idx, time.Duration(b.TR), b.Task, b.Idx, time.Duration(b.TR-a.TR), time.Duration(w.WaitNs))
 					return
 				}
-			} else if b.TR-a.TI < w.WaitNs {
-				fail("two-grants-in-one-period", "two Next calls that both returned true lie entirely within %s of each other ([%s,%s] and [%s,%s]), less than the period %s", time.Duration(b.TR-a.TI), time.Duration(a.TI), time.Duration(a.TR), time.Duration(b.TI), time.Duration(b.TR), time.Duration(w.WaitNs))
-				return
+			}
+		} else {
+			// under time faults a Next may be held back anywhere, also between being handed its permission
+			// and returning: each permission was handed out somewhere inside its call, so two of them are
+			// less than a period apart for certain only when the farthest two instants of the two calls are
+			for i := 0; i < len(grants); i++ {
+				for j := i + 1; j < len(grants); j++ {
+					a, b := grants[i], grants[j]
+					exact++
+					span := b.TR - a.TI
+					if a.TR-b.TI > span {
+						span = a.TR - b.TI
+					}
+					if span < w.WaitNs {
+						fail("two-grants-in-one-period", "two Next calls that both returned true lie entirely within %s of each other ([%s,%s] and [%s,%s]), less than the period %s", time.Duration(span), time.Duration(a.TI), time.Duration(a.TR), time.Duration(b.TI), time.Duration(b.TR), time.Duration(w.WaitNs))
+						return
+					}
+				}
 			}
 		}
 		// P2: the k-th permission needs k triggers
